@@ -272,7 +272,7 @@ def _main(pid, args, seed, t0):
     build_ok, build_errors, audit_results, audit_problems = True, [], {}, []
     with open(os.path.join(VERIF, '.lock'), 'w') as lockf:
         fcntl.flock(lockf, fcntl.LOCK_EX)
-        facts, facts_changed = extract_facts(pid)
+        facts, facts_changed = extract_facts(reg.get('facts_pid', pid))
         targets = list(reg['lean_modules'])
         drv = reg.get('driver')
         if not args.no_build:
@@ -304,7 +304,7 @@ def _main(pid, args, seed, t0):
 
 def _after_build(pid, args, seed, t0, reg, known, tier, facts, facts_changed, build_ok,
                  build_errors, audit_results, audit_problems, driver_path):
-    drift = fingerprint_drift(pid, facts)
+    drift = fingerprint_drift(reg.get('facts_pid', pid), facts)
     reasons = []
     if tier == 'thorough':
         reasons.append('thorough tier')
